@@ -447,4 +447,133 @@ example : session2 true codeFacts exCur .rhp2SectorRoots .rhp2Read exRootsIn
     = (.ok (exAfterRoots, 0), .ok ({ exCur with revNo := 7, valid := [⟨1, 80⟩, ⟨2, 70⟩], missed := [⟨1, 80⟩, ⟨2, 40⟩, ⟨0, 30⟩] }, 0)) := by
   decide +kernel
 
+/-! ### sessions with a renewal: after `rpcRenewAndClearContract` the locked contract is cleared -/
+
+theorem signRevise_unlocked {fx : Bool} {s : SignSite} {i : SiteIn} {x : Rev × Nat}
+    (h : signRevise fx s i = .ok x) : i.cur.revNo ≠ maxRev := by
+  have hrev : ∀ {r : Rev}, revise i.cur i.no i.vv i.mv = .ok r → i.cur.revNo ≠ maxRev := fun hr => (revise_ok hr).2.2.1
+  cases s <;> simp only [signRevise] at h
+  case rhp2SectorRoots => unfold rhp2Pay at h; res_ok' at h; obtain ⟨_, ⟨hl, _⟩, _⟩ := h; exact hl
+  case rhp2Read => unfold rhp2Pay at h; res_ok' at h; obtain ⟨_, ⟨hl, _⟩, _⟩ := h; exact hl
+  case rhp2Write => unfold rhp2Pay at h; res_ok' at h; obtain ⟨_, ⟨hl, _⟩, _⟩ := h; exact hl
+  case rhp3Finalize => unfold rhp3Finalize at h; res_ok' at h; obtain ⟨_, ⟨r, hr, _⟩, _⟩ := h; exact hrev hr
+  case rhp3Pay => unfold rhp3Pay at h; res_ok' at h; obtain ⟨r, hr, _⟩ := h; exact hrev hr
+  case rhp3Fund => unfold rhp3Fund at h; res_ok' at h; obtain ⟨r, hr, _⟩ := h; exact hrev hr
+  all_goals (cases h)
+
+/-- the renewal step keeps cached = stored (= the clearing revision) if the handler refreshes the cache -/
+theorem sessRenew_inv {fx : Bool} {F : SessFacts} {s : Sess} {renewal : Rev} {fv : List Nat} {expUH h rh : Nat}
+    {st : Settings} {sg : Sigs} (hF : ∀ x, F.refresh x = true) (hinv : s.cached = s.stored) :
+    (sessRenew fx F s renewal fv expUH h rh st sg).1.cached = (sessRenew fx F s renewal fv expUH h rh st sg).1.stored := by
+  unfold sessRenew
+  split
+  · split <;> simp [hF, hinv]
+  · exact hinv
+  · exact hinv
+
+/-- an accepted renewal leaves the clearing revision (number MaxUint64, no file, missed = valid) in the store -/
+theorem sessRenew_ok {fx : Bool} {F : SessFacts} {s s' : Sess} {renewal clr : Rev} {fv : List Nat} {expUH h rh n : Nat}
+    {st : Settings} {sg : Sigs} (hh : sessRenew fx F s renewal fv expUH h rh st sg = (s', .ok (clr, n))) :
+    s'.stored = clr ∧ clr.revNo = maxRev ∧ clr.filesize = 0 ∧ clr.missed = clr.valid ∧ s.cached.revNo ≠ maxRev ∧
+    (F.refresh .rhp2RenewClearing = true → s'.cached = clr) := by
+  unfold sessRenew at hh
+  split at hh
+  · split at hh
+    · rename_i clr' hclr
+      simp only [Prod.mk.injEq, Res.ok.injEq] at hh
+      obtain ⟨rfl, rfl, _⟩ := hh
+      have hc := clearingRevision_ok hclr
+      exact ⟨rfl, hc.1, hc.2.2.1, hc.2.2.2.2.1, hc.2.1, fun hr => by simp [hr]⟩
+    · simp at hh
+    · simp at hh
+  · simp at hh
+  · simp at hh
+
+/-- every step keeps cached = stored when all handlers refresh -/
+theorem sessOp_inv {fx : Bool} {F : SessFacts} {s : Sess} (o : SessOp) (hF : ∀ x, F.refresh x = true)
+    (hinv : s.cached = s.stored) : (sessOp fx F s o).1.cached = (sessOp fx F s o).1.stored := by
+  cases o with
+  | rpc site i => exact sessStep_inv hF hinv
+  | renew renewal fv expUH h rh st sg => exact sessRenew_inv hF hinv
+  | form fc expUH h rh st sg => simp only [sessOp]; split <;> exact hinv
+
+/-- with a cleared contract in the cache (revision number MaxUint64) no RPC that needs the locked contract is
+accepted: `ContractRevisable` / `Revise` / `ClearingRevision` all refuse -/
+theorem sessOp_rejects_when_cleared {fx : Bool} {F : SessFacts} {s : Sess} (o : SessOp)
+    (hc : s.cached.revNo = maxRev) (hn : o.needsLock = true) : (sessOp fx F s o).2.isOk = false := by
+  cases o with
+  | rpc site i =>
+    simp only [sessOp, sessStep]
+    split
+    · rename_i r cr heq
+      exact absurd hc (signRevise_unlocked heq)
+    · rfl
+    · rfl
+  | renew renewal fv expUH h rh st sg =>
+    simp only [sessOp, sessRenew]
+    split
+    · rename_i rec heq
+      unfold rpcRenew2 at heq
+      res_ok' at heq
+      exact absurd hc heq.2.1
+    · rfl
+    · rfl
+  | form fc expUH h rh st sg => simp [SessOp.needsLock] at hn
+
+/-- **after a renewal no revising RPC (and no second renewal) of the session is accepted**, with or without
+an Unlock+Lock in between: the session's contract is the clearing revision the store holds. -/
+theorem after_renewal_nothing_accepted {fx : Bool} {c renewal : Rev} {fv : List Nat} {expUH h rh : Nat} {st : Settings}
+    {sg : Sigs} {o2 : SessOp} {relock : Bool} {x : Rev × Nat} {r2 : Res (Rev × Nat)}
+    (hh : sessionOps fx codeFacts c true (.renew renewal fv expUH h rh st sg) o2 relock = (.ok x, r2))
+    (hn : o2.needsLock = true) : r2.isOk = false := by
+  unfold sessionOps at hh
+  simp only [Bool.not_true, Bool.false_and, Bool.and_true, ite_false, Bool.false_eq_true] at hh
+  generalize hs1 : sessOp fx codeFacts (sessLock { cached := c, stored := c }) (.renew renewal fv expUH h rh st sg) = st1 at hh
+  obtain ⟨s1, res1⟩ := st1
+  simp only [sessOp] at hs1
+  cases res1 with
+  | reject t => simp at hh
+  | panic p => simp at hh
+  | ok v =>
+    obtain ⟨clr, n⟩ := v
+    simp only [Prod.mk.injEq] at hh
+    obtain ⟨_, h2⟩ := hh
+    have ho := sessRenew_ok hs1
+    have hcached : (if relock = true then sessLock s1 else s1).cached.revNo = maxRev := by
+      have hc : s1.cached = clr := ho.2.2.2.2.2 rfl
+      cases relock <;> simp [sessLock, hc, ho.1, ho.2.1]
+    rw [← h2]
+    exact sessOp_rejects_when_cleared (F := codeFacts) o2 hcached hn
+
+/-! the defect repaired by /repo 778b5c0: `rpcRenewAndClearContract` did not refresh the session's contract -/
+
+def staleRenewFacts : SessFacts := { refresh := fun s => s != .rhp2RenewClearing }
+
+def exRenewOp : SessOp :=
+  .renew exRenewal [4999, 701] 10 1000 U64 { exSettings with maxCollateral := 2000000 } ⟨true, true⟩
+/-- SectorRoots on the pre-renewal revision of `exExisting` (revision 9 -> 10, paying 10) -/
+def exStaleRootsOp : SessOp :=
+  .rpc .rhp2SectorRoots { cur := exExisting, no := 10, vv := [4990, 710], mv := [4990, 600, 110], price := 10, burn := 0, sigOK := true }
+
+/-- Lock, RenewAndClear, SectorRoots in one session: with the stale session contract the SectorRoots revision
+(number 10) is accepted and persisted over the clearing revision (number MaxUint64) — the renewed-away contract
+is revised again; the code as it is now refuses it (`ContractRevisable`: max revision number reached). -/
+theorem stale_after_renewal_witness :
+    (∃ clr r2, sessionOps true staleRenewFacts exExisting true exRenewOp exStaleRootsOp false = (.ok (clr, 0), .ok (r2, 0)) ∧
+      clr.revNo = maxRev ∧ r2.revNo = 10) ∧
+    (sessionOps true codeFacts exExisting true exRenewOp exStaleRootsOp false).2 = .reject .locked ∧
+    -- a second renewal in the same session is refused as well
+    (sessionOps true codeFacts exExisting true exRenewOp exRenewOp false).2 = .reject .locked ∧
+    (sessionOps true staleRenewFacts exExisting true exRenewOp exRenewOp false).2.isOk = true := by
+  refine ⟨⟨{ exExisting with revNo := maxRev, filesize := 0, root := 0, valid := [⟨1, 4999⟩, ⟨2, 701⟩], missed := [⟨1, 4999⟩, ⟨2, 701⟩] },
+    { exExisting with revNo := 10, valid := [⟨1, 4990⟩, ⟨2, 710⟩], missed := [⟨1, 4990⟩, ⟨2, 600⟩, ⟨0, 110⟩] }, ?_⟩, ?_⟩
+  · decide +kernel
+  · decide +kernel
+
+/-- without a locked contract nothing that needs one is accepted; a formation is -/
+example : (sessionOps true codeFacts exExisting false exStaleRootsOp exStaleRootsOp false).1 = .reject .noContract := by
+  decide +kernel
+example : (sessionOps true codeFacts exExisting false (.form exForm 10 1000 U64 exSettings ⟨true, true⟩) exStaleRootsOp false)
+    = (.ok (exForm, 500), .reject .noContract) := by decide +kernel
+
 end Hostd.Revision
